@@ -49,4 +49,6 @@ import Pms.Props.C07Mod
 #print axioms Pms.Sym.C07_relabel_psi2d
 #print axioms Pms.Sym.C07_rot_ql
 #print axioms Pms.Sym.C07_scale_ql
+#print axioms Pms.Sym.C07_rot_Ql
+#print axioms Pms.Sym.C07_rot_sij
 #print axioms Pms.ModShape.C07_module_shape
